@@ -7,6 +7,7 @@ import (
 
 	"github.com/hashicorp/hcl/v2"
 	"github.com/hashicorp/hcl/v2/ext/dynblock"
+	"github.com/hashicorp/hcl/v2/gohcl"
 	"github.com/hashicorp/hcl/v2/hcldec"
 	"github.com/hashicorp/hcl/v2/hclsyntax"
 	"github.com/zclconf/go-cty/cty"
@@ -21,7 +22,7 @@ type BodyCase struct {
 	Var  string `json:"var"`
 }
 
-const bodyRule = "bodies: 22 body templates (attributes of the wrong type for the spec, required/validated attributes, dynamic blocks whose for_each / labels / iterator / content use the marked variable, incl. invalid for_each types, null and marked labels) x marked variable in {sa, one, ls, mn, o, bt, sn, ss, ln} x 10 hcldec specs (typed attributes that force failing conversions, BlockMap/BlockObject labels, BlockAttrs, Validate/Refine wrappers); dynblock.Expand + hcldec.Decode"
+const bodyRule = "bodies: 28 body templates (attributes of the wrong type for the spec, required/validated attributes, dynamic blocks whose for_each / labels / iterator / content use the marked variable, incl. invalid for_each types, null and marked labels) x marked variable in {sa, one, ls, mn, o, bt, sn, ss, ln, t, oo, lo} x 16 hcldec specs (typed attributes incl. nested collection types that force failing conversions inside the value, BlockMap/BlockObject labels, BlockAttrs with primitive and collection element types) and 6 gohcl target types; dynblock.Expand + hcldec.Decode / gohcl.DecodeBody"
 
 func typed(t cty.Type) hcldec.Spec { return &hcldec.AttrSpec{Name: "a", Type: t, Required: true} }
 
@@ -31,12 +32,55 @@ var specTable = map[string]hcldec.Spec{
 	"a-list":   hcldec.ObjectSpec{"a": typed(cty.List(cty.Number))},
 	"a-object": hcldec.ObjectSpec{"a": typed(cty.Object(map[string]cty.Type{"q": cty.Number}))},
 	"a-map":    hcldec.ObjectSpec{"a": typed(cty.Map(cty.Bool))},
+	"a-mapn":   hcldec.ObjectSpec{"a": typed(cty.Map(cty.Number))},
+	"a-mapmap": hcldec.ObjectSpec{"a": typed(cty.Map(cty.Map(cty.Number)))},
+	"a-lobj":   hcldec.ObjectSpec{"a": typed(cty.List(cty.Object(map[string]cty.Type{"a": cty.Bool})))},
+	// the same attribute decoded with gohcl into a Go type (see gohclTargets)
+	"g-int": nil, "g-bool": nil, "g-ints": nil, "g-mapint": nil, "g-mapmap": nil, "g-struct": nil,
 	"b-list":   hcldec.ObjectSpec{"b": &hcldec.BlockListSpec{TypeName: "b", Nested: hcldec.ObjectSpec{"a": typed(cty.Number)}}},
 	"b-set":    hcldec.ObjectSpec{"b": &hcldec.BlockSetSpec{TypeName: "b", Nested: hcldec.ObjectSpec{"a": typed(cty.Bool)}}},
 	"b-map":    hcldec.ObjectSpec{"b": &hcldec.BlockMapSpec{TypeName: "b", LabelNames: []string{"k"}, Nested: hcldec.ObjectSpec{"a": typed(cty.Number)}}},
 	"b-object": hcldec.ObjectSpec{"b": &hcldec.BlockObjectSpec{TypeName: "b", LabelNames: []string{"k"}, Nested: hcldec.ObjectSpec{"a": typed(cty.Number)}}},
 	"b-attrs":  hcldec.ObjectSpec{"b": &hcldec.BlockAttrsSpec{TypeName: "b", ElementType: cty.Number}},
+	"b-attrsm": hcldec.ObjectSpec{"b": &hcldec.BlockAttrsSpec{TypeName: "b", ElementType: cty.Map(cty.Number)}},
+	"b-attrsl": hcldec.ObjectSpec{"b": &hcldec.BlockAttrsSpec{TypeName: "b", ElementType: cty.List(cty.Map(cty.Bool))}},
 	"b-single": hcldec.ObjectSpec{"b": &hcldec.BlockSpec{TypeName: "b", Nested: hcldec.ObjectSpec{"a": typed(cty.Number)}}},
+}
+
+// gohclTargets: fresh decoding targets for the g-* pseudo specs.
+var gohclTargets = map[string]func() any{
+	"g-int": func() any {
+		return &struct {
+			A int `hcl:"a"`
+		}{}
+	},
+	"g-bool": func() any {
+		return &struct {
+			A bool `hcl:"a"`
+		}{}
+	},
+	"g-ints": func() any {
+		return &struct {
+			A []int `hcl:"a"`
+		}{}
+	},
+	"g-mapint": func() any {
+		return &struct {
+			A map[string]int `hcl:"a"`
+		}{}
+	},
+	"g-mapmap": func() any {
+		return &struct {
+			A map[string]map[string]int `hcl:"a"`
+		}{}
+	},
+	"g-struct": func() any {
+		return &struct {
+			A struct {
+				A bool `cty:"a"`
+			} `hcl:"a"`
+		}{}
+	},
 }
 
 type tmpl struct {
@@ -50,6 +94,12 @@ var templates = []tmpl{
 	{text: "a = [X, X]\n", attr: true},
 	{text: "a = { (X) = X }\n", attr: true},
 	{text: "a = \"${X}\"\n", attr: true},
+	{text: "a = X[0]\n", attr: true},
+	{text: "a = X.a\n", attr: true},
+	{text: "a = [X[0]]\n", attr: true},
+	{text: "a = { k = X }\n", attr: true},
+	{text: "b {\n  a = X[0]\n}\n"},
+	{text: "b {\n  a = [X.a]\n}\n"},
 	{text: "b {\n  a = X\n}\n"},
 	{text: "b \"l\" {\n  a = X\n}\nb \"l\" {\n  a = X\n}\n", labels: true},
 	{text: "dynamic \"b\" {\n  for_each = X\n  content {\n    a = b.value\n  }\n}\n"},
@@ -71,7 +121,7 @@ var templates = []tmpl{
 	{text: "dynamic \"b\" {\n  for_each = X\n  content {\n    dynamic \"b\" {\n      for_each = b.value\n      content {\n        a = b.value\n      }\n    }\n  }\n}\n"},
 }
 
-var bodyVars = []string{"sa", "one", "ls", "mn", "o", "bt", "sn", "ss", "ln"}
+var bodyVars = []string{"sa", "one", "ls", "mn", "o", "bt", "sn", "ss", "ln", "t", "oo", "lo"}
 
 func genBodies(tier string, emit func(engine.Case) bool) {
 	var specNames []string
@@ -83,7 +133,7 @@ func genBodies(tier string, emit func(engine.Case) bool) {
 		for _, v := range bodyVars {
 			text := strings.ReplaceAll(t.text, "X", v)
 			for _, sn := range specNames {
-				isAttr := strings.HasPrefix(sn, "a-")
+				isAttr := strings.HasPrefix(sn, "a-") || strings.HasPrefix(sn, "g-")
 				if isAttr != t.attr {
 					continue
 				}
@@ -103,7 +153,8 @@ func genBodies(tier string, emit func(engine.Case) bool) {
 func judgeBody(d Data) engine.Outcome {
 	bc := d.Body
 	spec := specTable[bc.Spec]
-	if spec == nil {
+	target := gohclTargets[bc.Spec]
+	if spec == nil && target == nil {
 		return engine.Skip()
 	}
 	src := []byte(bc.Text)
@@ -117,7 +168,22 @@ func judgeBody(d Data) engine.Outcome {
 	for pi, cv := range canaries(pool.Vars[bc.Var]) {
 		ctx := &hcl.EvalContext{Variables: pool.WithVar(bc.Var, cv), Functions: funcs()}
 		body := dynblock.Expand(f.Body, ctx)
-		_, diags := hcldec.Decode(body, spec, ctx)
+		var diags hcl.Diagnostics
+		if target != nil {
+			// gocty cannot represent marks: gohcl panics when a marked value reaches the Go target.
+			// That is not a statement about diagnostics, so such a run contributes nothing here.
+			func() {
+				defer func() {
+					if r := recover(); r != nil {
+						counters.Add("gohcl_marked_value_panics_not_judged", 1)
+						diags = nil
+					}
+				}()
+				diags = gohcl.DecodeBody(body, ctx, target())
+			}()
+		} else {
+			_, diags = hcldec.Decode(body, spec, ctx)
+		}
 		ndiags += len(diags)
 		if leak := checkDiags(diags, files); leak != "" {
 			sum := ""
